@@ -3,6 +3,7 @@ C04 — RecordIO returns written records unchanged through every reader and acce
 Property theorems only; helper lemmas live in SST/Proofs.
 -/
 import SST.Proofs.RecordIO
+import SST.Proofs.RecordIOSeek
 namespace SST.C04
 open SST Generated
 
@@ -41,6 +42,28 @@ theorem skip_eq_read_discard (c : Compression) (r : GoBytes) (rest : Bytes)
 theorem zero_tail_is_eof (c : Compression) (n : Nat) :
     readNextS c (List.replicate n 0) = .error .eof :=
   Proofs.zero_tail_is_eof c n
+
+/-- SeekNext as coded (4 KiB windows, marker scan, trial reads) returns the FIRST position at or after the start
+offset where the marker stands and a complete valid record can be read, and end-of-file if there is none —
+for every file content and every offset. -/
+theorem seekNext_spec (c : Compression) (file : Bytes) (off : Nat) (hoff : off ≤ file.length) :
+    match seekNext c file off with
+    | .ok (p, r) => off ≤ p ∧ Proofs.MarkerAt file p ∧ readAt c file p = .ok r ∧
+        ∀ q, off ≤ q → q < p → ¬ Proofs.ValidAt c file q
+    | .error e => e = .eof ∧ ∀ q, off ≤ q → ¬ Proofs.ValidAt c file q :=
+  Proofs.seekNext_spec c file off hoff
+
+/-- On a written file in which no payload embeds the bytes of a complete valid record (`NoPhantom`; the
+format has no escaping, see the known finding), seeking from any byte offset returns the first record that
+starts at or after that offset, or end-of-file. -/
+theorem seekNext_first_record (c : Compression) (ct : Nat) (rs : List GoBytes)
+    (hl : LawfulC c) (hf : ∀ r ∈ rs, FitsRec c r) (hnp : Proofs.NoPhantom c ct rs) (off : Nat)
+    (hoff : off ≤ (fileHeader currentVersion ct ++ encAll c rs).length) :
+    match seekNext c (fileHeader currentVersion ct ++ encAll c rs) off with
+    | .ok (p, r) => ∃ k, ∃ hk : k < rs.length, p = offsetOf c rs k ∧ r = rs[k] ∧ off ≤ p ∧
+        ∀ j, j < k → offsetOf c rs j < off
+    | .error e => e = .eof ∧ ∀ k, k < rs.length → offsetOf c rs k < off :=
+  Proofs.seekNext_first_record c ct rs hl hf hnp off hoff
 
 /-- Non-vacuity: a concrete non-trivial program (write, write nil, cut back, write) meets the hypotheses. -/
 example : CutsOk [] [.write (some [1, 2]), .write none, .cut 1, .write (some [])] := by
